@@ -6818,7 +6818,14 @@ def debug_dump_datatree_graph(v: object, out_name: str = "dtree"):
         g.render(out_name, format=ProgramData.option(ProgramOption.DEBUG_GRAPH_DUMP_FORMAT), cleanup=True)
 
 
+# Several passes (rebuilding a minimized regex automaton, depth-first orderings, ...) recurse once per state along a chain of states,
+# and a long literal or a counted repetition such as /a{1000}/ is exactly such a chain: python's default limit of 1000 frames is
+# reached by ordinary inputs.
+RECURSION_LIMIT = 100000
+
 def main(): # pragma: no cover
+    sys.setrecursionlimit(max(sys.getrecursionlimit(), RECURSION_LIMIT))
+
     try:
         input_file, program_name = ProgramData.load_commandline_flags(sys.argv[1:])
     except RuntimeError as e:
